@@ -1,6 +1,10 @@
 package replication
 
 import (
+	"context"
+	"errors"
+	"time"
+
 	ch "github.com/WuKongIM/WuKongIM/pkg/channel"
 	"github.com/WuKongIM/WuKongIM/internal/zzsym"
 )
@@ -206,4 +210,72 @@ func Harness_C01_SelectionRejectsMalformedReports() {
 	if bad {
 		zzsym.Assert(err != nil, "selection from fewer than quorum, foreign or duplicate reports")
 	}
+}
+
+// c01ProbeIdx answers a probe for arbitrary indexes as a replica holding log l would.
+func c01ProbeIdx(l c01Log, indexes []uint64) ProbeResult {
+	res := ProbeResult{State: c01State(l), Entries: make([]EntryProbe, len(indexes))}
+	for k, idx := range indexes {
+		res.Entries[k] = EntryProbe{Index: idx}
+		if idx >= 1 && idx <= uint64(l.leo) {
+			res.Entries[k].Present = true
+			res.Entries[k].Identity = c01Identity(l.v, int(idx))
+		}
+	}
+	return res
+}
+
+var errC01Down = errors.New("c01: voter unreachable")
+
+// c01Dispatcher is a synchronous recovery probe dispatcher over the cluster summary: reachable
+// voters answer every probe from their (unchanging) log, unreachable voters fail the submit.
+type c01Dispatcher struct {
+	logs  [3]c01Log
+	up    int
+	calls int
+}
+
+func (d *c01Dispatcher) submitRecoveryProbe(_ context.Context, q recoveryProbeQuery, complete func(ProbeResult, error)) error {
+	d.calls++
+	r := int(q.Voter) - 1
+	if r < 0 || r > 2 || d.up&(1<<r) == 0 {
+		return errC01Down
+	}
+	complete(c01ProbeIdx(d.logs[r], q.Indexes), nil)
+	return nil
+}
+
+// Harness_C01_RecoverQuorumPrefixKeepsAcked (obligation O2 on the production path): the recovery
+// a new leader runs inside Install, against every reachable quorum of an arbitrary cluster.
+func Harness_C01_RecoverQuorumPrefixKeepsAcked() {
+	L := c01LogLen()
+	logs, a, p, holders := c01Cluster(L)
+	resp := c01Responders()
+	d := &c01Dispatcher{logs: logs, up: resp}
+	leader := ch.NodeID(1 + zzsym.Choice("leader", 3))
+	zzsym.Assume(resp&(1<<(int(leader)-1)) != 0) // the installing leader answers its own probe
+	sel, err := recoverQuorumPrefix(context.Background(), recoveryProbeRequest{
+		ChannelKey: "k", ChannelID: ch.ChannelID{ID: "g1", Type: 2}, Leader: leader,
+		Voters: []ch.NodeID{1, 2, 3}, Quorum: 2, Timeout: time.Second,
+	}, d)
+	if err != nil {
+		return // failing closed is always safe
+	}
+	zzsym.Reach("recovery-selected")
+	known := c01Popcount(holders&resp) < 2
+	kept := sel.Index >= uint64(a) && sel.Identity.Digest[0] == 0xD1
+	if kept {
+		for k := 0; k < a; k++ {
+			if sel.Identity.Digest[1+k] != p[k] {
+				kept = false
+			}
+		}
+	}
+	zzsym.AssertKnown(kept, "a new leader's recovery selected a prefix that omits or replaces an acknowledged entry", "C01-F1", known)
+	zzsym.Assert(sel.CertifiedCommitted <= sel.Index, "certified committed watermark beyond the recovered prefix")
+	for _, s := range sel.Supporters {
+		zzsym.Assert(s.State.LEO >= sel.Index, "supporter does not hold the recovered index")
+	}
+	zzsym.Assert(sel.Index == 0 || len(sel.Supporters) >= 2, "recovered prefix without a quorum of supporters")
+	zzsym.Observe("recovered", sel.Index, sel.CertifiedCommitted, uint64(len(sel.Supporters)), uint64(d.calls))
 }
